@@ -194,7 +194,7 @@ def script(problem, primaries, **kw):
     out = ["problem " + problem]
     for k in ("slots", "capacity", "maxevents", "stackfactor", "order", "seed", "maxsteps",
               "along", "interactor", "xsscale", "lossscale", "posrest", "postcut", "collector",
-              "quiet", "statuscheck"):
+              "quiet", "statuscheck", "errat"):
         if k in kw and kw[k] is not None:
             out.append("%s %s" % (k, kw[k]))
     for n, v in (kw.get("cuts") or {}).items():
